@@ -217,6 +217,9 @@ func (self *Interpreter) infixExpression(node ast.AnalyzedInfixExpression) (*val
 }
 
 func (self *Interpreter) infixHelper(lhs ast.AnalyzedExpression, rhs ast.AnalyzedExpression, operator pAst.InfixOperator) (res *value.Value, lhsAddr *value.Value, i *value.Interrupt) {
+	// Span of the whole operation, used for runtime errors of the operator itself
+	opSpan := errors.Span{Start: lhs.Span().Start, End: rhs.Span().End, Filename: lhs.Span().Filename}
+
 	switch operator {
 	case pAst.EqualInfixOperator:
 		lhs, i := self.expression(lhs)
@@ -276,14 +279,26 @@ func (self *Interpreter) infixHelper(lhs ast.AnalyzedExpression, rhs ast.Analyze
 		case pAst.MultiplyInfixOperator:
 			intRes = lhsInt.Inner * rhsInt.Inner
 		case pAst.DivideInfixOperator:
+			if rhsInt.Inner == 0 {
+				return nil, nil, value.NewRuntimeErr("Division by zero error: this is operation is illegal", value.ValueErrorKind, opSpan)
+			}
 			intRes = lhsInt.Inner / rhsInt.Inner
 		case pAst.ModuloInfixOperator:
+			if rhsInt.Inner == 0 {
+				return nil, nil, value.NewRuntimeErr("Division by zero error: this is operation is illegal", value.ValueErrorKind, opSpan)
+			}
 			intRes = lhsInt.Inner % rhsInt.Inner
 		case pAst.PowerInfixOperator:
 			intRes = int64(math.Pow(float64(lhsInt.Inner), float64(rhsInt.Inner)))
 		case pAst.ShiftLeftInfixOperator:
+			if rhsInt.Inner < 0 {
+				return nil, nil, value.NewRuntimeErr("Negative shift count: this is operation is illegal", value.ValueErrorKind, opSpan)
+			}
 			intRes = lhsInt.Inner << rhsInt.Inner
 		case pAst.ShiftRightInfixOperator:
+			if rhsInt.Inner < 0 {
+				return nil, nil, value.NewRuntimeErr("Negative shift count: this is operation is illegal", value.ValueErrorKind, opSpan)
+			}
 			intRes = lhsInt.Inner >> rhsInt.Inner
 		case pAst.BitOrInfixOperator:
 			intRes = lhsInt.Inner | rhsInt.Inner
@@ -328,6 +343,9 @@ func (self *Interpreter) infixHelper(lhs ast.AnalyzedExpression, rhs ast.Analyze
 		case pAst.MultiplyInfixOperator:
 			floatRes = lhsFloat.Inner * rhsFloat.Inner
 		case pAst.DivideInfixOperator:
+			if rhsFloat.Inner == 0.0 {
+				return nil, nil, value.NewRuntimeErr("Division by zero error: this is operation is illegal", value.ValueErrorKind, opSpan)
+			}
 			floatRes = lhsFloat.Inner / rhsFloat.Inner
 		case pAst.PowerInfixOperator:
 			floatRes = math.Pow(lhsFloat.Inner, rhsFloat.Inner)
